@@ -165,6 +165,13 @@ func (m *Module) Files() map[string]string {
 				}
 			}
 			sb.WriteString(body.String())
+			if f == nf-1 && len(p.FuncLocal) > 0 {
+				sb.WriteString("\nfunc funcLocalTypes() {\n")
+				for i, n := range p.FuncLocal {
+					fmt.Fprintf(&sb, "\ttype %s interface{ FuncLocalOnly%d() }\n\tvar _ %s\n", n, i, n)
+				}
+				sb.WriteString("\t_ = func() {\n\t\ttype InLit interface{ X() }\n\t\tvar _ InLit\n\t}\n}\n\nvar _ = funcLocalTypes\n")
+			}
 			files[p.SourceFileName(f)] = sb.String()
 		}
 	}
@@ -221,6 +228,9 @@ func (m *Module) Features() []string {
 		p := &m.Pkgs[pi]
 		if len(p.SrcAlias) > 0 {
 			set["src-import-alias"] = true
+		}
+		if len(p.FuncLocal) > 0 {
+			set["func-local-types"] = true
 		}
 		for ii := range p.Ifaces {
 			it := &p.Ifaces[ii]
@@ -296,4 +306,10 @@ func (m *Module) Features() []string {
 	}
 	sort.Strings(out)
 	return out
+}
+
+// HelperFile returns the path and content of the helper package with the given key.
+func HelperFile(key string) (string, string) {
+	h := LookupPkg(key)
+	return path.Join(h.Rel, "types.go"), helperSource(h.Name)
 }
